@@ -205,6 +205,15 @@ func (s *Protocol) InvokeTimeout(pkg []byte) []byte {
 	reqPackage := requestf.RequestPacket{}
 	is := codec.NewReader(pkg[4:])
 	reqPackage.ReadFrom(is)
+	if reqPackage.CPacketType == basef.TARSONEWAY {
+		// a one-way request is never answered; Invoke has not recorded the packet type in the
+		// context yet, so tell the transport by handing back no response at all
+		return nil
+	}
+	// like Invoke: the response carries the version (it selects the encoding in rsp2Byte) and the
+	// packet type of the request
+	rspPackage.IVersion = reqPackage.IVersion
+	rspPackage.CPacketType = reqPackage.CPacketType
 	rspPackage.IRequestId = reqPackage.IRequestId
 	rspPackage.IRet = 1
 	rspPackage.SResultDesc = "server invoke timeout"
